@@ -428,6 +428,16 @@ def _real_component(fn, case):
             if fn == "parse_tags":
                 l, tags = content.parse_tags(case["s"])
                 return "ok", [l, tags]
+            if fn == "validate_choice_syntax":
+                try:
+                    validation.validate_choice_syntax(case["s"], 0, [case["s"]])
+                    return "ok", None
+                except SyntaxError as e:
+                    if classify(e, e.__traceback__) != "diag":
+                        raise
+                    tags_ = ["Missing arrow", "Missing opening bracket", "Missing closing bracket", "Unclosed conditional", "without matching",
+                             "appears before", "Missing target", "contains spaces", "Empty choice text"]
+                    return "ok", {"diag": next((t for t in tags_ if t in str(e)), "other")}
             if fn == "parse_content_line":
                 try:
                     return "ok", content.parse_content_line(case["s"])
@@ -446,7 +456,8 @@ def _real_component(fn, case):
 
 def gen_component_case(r, i):
     fn = ["extract_passage_params", "extract_target_and_args", "split_on_commas", "parse_passage_params", "validate_passage_name",
-          "extract_multiline_expression", "py_new", "py_old", "parse_content_line", "parse_content_line", "parse_tags"][i % 11]
+          "extract_multiline_expression", "py_new", "py_old", "parse_content_line", "parse_content_line", "parse_tags",
+          "validate_choice_syntax", "validate_choice_syntax"][i % 13]
     c = {"kind": "pcomp", "id": i, "fn": fn}
     if fn in ("extract_passage_params", "extract_target_and_args"):
         c["s"] = _rand_str(r, PAREN_ALPHA, 0, 10)
@@ -463,6 +474,13 @@ def gen_component_case(r, i):
             c["s"] = _rand_str(r, PARAM_ALPHA, 0, 8)
     elif fn == "validate_passage_name":
         c["s"] = _rand_str(r, list("abXY_09."), 1, 6) if r.random() < 0.5 else _rand_str(r, NAME_ALPHA, 0, 6)
+    elif fn == "validate_choice_syntax":
+        if r.random() < 0.7:
+            c["s"] = (r.choice(["+ ", "* ", "+", "  + "]) + r.choice(["", "", "{c} ", "{c ", "{a{b}} ", "} ", "{ x > {1} } "]) +
+                      r.choice(["[x]", "[x]", "[go on]", "[ ]", "[]", "[x", "x]", "][", "[a {y}]", "[a] [b]"]) +
+                      r.choice([" -> ", " -> ", " -> ", "->", " ->", " -> -> "]) + r.choice(["B", "B", "B(1, 2)", "", "B C", "  ", "// c", "B // c", "@join", "B ^t"]))
+        else:
+            c["s"] = _rand_str(r, list("ab []{}{}->+* /") + [" -> ", "->", "[x]", "{c}", " // c", "B", "+ ", "* "], 0, 10)
     elif fn in ("parse_content_line", "parse_tags"):
         if r.random() < 0.5:      # mostly well-formed lines
             parts = []
